@@ -1141,8 +1141,8 @@ def run(ctx):
         for tl in ("xz-dc", "xz-d", "xz-t", "xzdec", "lzmadec"):
             ctx.require("runs_" + tl, c.get("runs_" + tl, 0), 10)
         ctx.require("error_after_output", c.get("error_after_output", 0), 20)
-        ctx.require("lib_unsupported_check_warning", c.get("lib_unsupported_check_warning", 0), 5)
-        ctx.require("passthru", c.get("passthru", 0), 5)
+        ctx.require("lib_unsupported_check_warning", c.get("lib_unsupported_check_warning", 0), 1)
+        ctx.require("passthru", c.get("passthru", 0), 3)
         ctx.require("roundtrip_accepted", c.get("roundtrip_accepted", 0), 30)
         ctx.require("flavour_asan", c.get("flavour_asan", 0), 10)
         ctx.require("newfile_refused", c.get("newfile_refused", 0), 5)
